@@ -159,6 +159,23 @@ def mk_cmp(op, l, r):
     return ('cmp', op, l, r)
 
 
+_NEG_CMP = {'Eq': 'NotEq', 'NotEq': 'Eq', 'Is': 'IsNot', 'IsNot': 'Is', 'In': 'NotIn', 'NotIn': 'In'}
+
+
+def negate(v):
+    """Logical negation in normal form: double negation removed; equality / identity / membership tests
+    turned into their complement (exact for every value); order comparisons stay under `not` (their
+    complement differs on NaN)."""
+    if isinstance(v, tuple) and v:
+        if v[0] == 'not':
+            return v[1]
+        if v[0] == 'cmp' and v[1] in _NEG_CMP:
+            return mk_cmp(_NEG_CMP[v[1]], v[2], v[3])
+        if v[0] == 'truth':
+            return ('not', v[1])
+    return ('not', v)
+
+
 class Normalizer(object):
     def __init__(self, env=None, resolver=None, transparent_calls=(), keep_casts=False, ordered_add=False):
         """env: name -> normal form (or AST) substituted for Names.
@@ -269,9 +286,7 @@ class Normalizer(object):
         if op == 'UAdd':
             return v
         if op == 'Not':
-            if isinstance(v, tuple) and v and v[0] == 'not':
-                return v[1]
-            return ('not', v)
+            return negate(v)
         return (op, v)
 
     def n_BoolOp(self, e):
